@@ -107,12 +107,14 @@ def run(ctx):
                                     if U.is_self_attr(gv) and gv.attr in fields[g.cls.qual]:
                                         continue     # with (yield from lock)
                                     if isinstance(gv, ast.Call) and isinstance(gv.func, ast.Attribute) \
-                                            and gv.func.attr in ('acquire', 'wait') and U.is_self_attr(gv.func.value) \
+                                            and gv.func.attr == 'acquire' and U.is_self_attr(gv.func.value) \
                                             and gv.func.value.attr in fields[g.cls.qual]:
                                         continue
+                                    # a wait() in the callee gives up only the callee's own lock: the caller's lock stays
+                                    # held for as long as the wait lasts (every other host is blocked meanwhile)
                                     inner_ok = False
                         ok = inner_ok
-                        why = 'awaits %s which only takes locks later in the order' % ', '.join(g.qual for g in callees)
+                        why = 'awaits %s, which %s' % (', '.join(g.qual for g in callees), 'only takes locks later in the order' if inner_ok else 'can wait on a condition or suspend elsewhere')
                     else:
                         why = 'unresolved'
                 elif U.is_self_attr(v) and v.attr in cls_fields:
